@@ -67,7 +67,7 @@ Proof.
   assert (HLb : legal_spec (abs b) m = true) by (rewrite (legal_spec_same_core _ _ m SC); exact HL).
   pose proof (legal_applicable b m HR HVb HLb) as HA.
   split; [apply UndoMove.make_Rep; assumption|].
-  split; [apply (HashInv.hash_ok_make z b m (BoardInv.Rep_RepW b HR) HA HH)|].
+  split; [apply (HashInv.hash_ok_make z gen_layout b m (BoardInv.Rep_RepW b HR) HA HH)|].
   apply (same_core_trans _ (succ_spec (abs b) m)).
   - apply make_same_core; assumption.
   - apply succ_spec_same_core. exact SC.
